@@ -34,7 +34,8 @@ VARIABLES
 vars == <<phase, tc, ts, m, cnt>>
 
 NoC == [st |-> "none", path |-> <<>>, pur |-> "", bf |-> 0]
-NoS == [st |-> "none", circ |-> 0, tgt |-> "", src |-> ""]
+NoS == [st |-> "none", circ |-> 0, tgt |-> "", taddr |-> "", src |-> ""]
+RemapAddrs == {"10.9.8.7", "10.9.8.8"}     \* addresses Tor remaps a stream to (cache hit, then the exit's answer)
 Purposes == {"GENERAL", "HS_CLIENT_REND"}
 Targets == {"h1.example:80", "h2.example:443"}
 Srcs == {"127.0.0.1:4001", "127.0.0.1:4002"}
@@ -203,20 +204,22 @@ CircGone(c) ==
 
 StreamNew(s, st, tgt, src) ==
   /\ ~LiveS(s) /\ st \in {"NEW", "NEWRESOLVE"} /\ tgt \in Targets /\ src \in Srcs
-  /\ ts' = [ts EXCEPT ![s] = [st |-> st, circ |-> 0, tgt |-> tgt, src |-> src]]
+  /\ ts' = [ts EXCEPT ![s] = [st |-> st, circ |-> 0, tgt |-> tgt, taddr |-> "", src |-> src]]
   /\ Deliver("S", [id |-> s, st |-> st, circ |-> 0, tgt |-> tgt, src |-> src])
   /\ TorStep /\ UNCHANGED <<phase, tc>>
 
 SentConnect(s, c) ==
-  /\ LiveS(s) /\ ts[s].circ = 0 /\ ts[s].st \in {"NEW", "DETACHED"} /\ tc[c].st = "BUILT"
+  /\ LiveS(s) /\ ts[s].circ = 0 /\ ts[s].st \in {"NEW", "DETACHED", "REMAP"} /\ tc[c].st = "BUILT"
   /\ ts' = [ts EXCEPT ![s].st = "SENTCONNECT", ![s].circ = c]
   /\ Deliver("S", [id |-> s, st |-> "SENTCONNECT", circ |-> c, tgt |-> ts[s].tgt, src |-> ""])
   /\ TorStep /\ UNCHANGED <<phase, tc>>
 
-Remap(s) ==
-  /\ LiveS(s) /\ ts[s].st = "SENTCONNECT"
-  /\ ts' = [ts EXCEPT ![s].st = "REMAP"]
-  /\ Deliver("S", [id |-> s, st |-> "REMAP", circ |-> ts[s].circ, tgt |-> "10.9.8.7", src |-> ""])
+\* Tor remaps a stream's target: from its address cache before attaching (NEW, circuit 0), and
+\* again with the exit's answer after SENTCONNECT; each REMAP carries the latest address.
+Remap(s, a) ==
+  /\ LiveS(s) /\ ts[s].st \in {"NEW", "SENTCONNECT", "REMAP"} /\ a \in RemapAddrs /\ a # ts[s].taddr
+  /\ ts' = [ts EXCEPT ![s].st = "REMAP", ![s].taddr = a]
+  /\ Deliver("S", [id |-> s, st |-> "REMAP", circ |-> ts[s].circ, tgt |-> a, src |-> ""])
   /\ TorStep /\ UNCHANGED <<phase, tc>>
 
 Succeeded(s) ==
@@ -246,7 +249,8 @@ LoadC(mm, S) == IF S = {} THEN mm
                            ELSE mm, S \ {c})
 LoadS(mm, S) == IF S = {} THEN mm
                 ELSE LET s == CHOOSE x \in S : \A y \in S : x <= y IN
-                     LoadS(IF LiveS(s) THEN OnStream(mm, [id |-> s, st |-> ts[s].st, circ |-> ts[s].circ, tgt |-> ts[s].tgt, src |-> ""])
+                     LoadS(IF LiveS(s) THEN OnStream(mm, [id |-> s, st |-> ts[s].st, circ |-> ts[s].circ,
+                                                     tgt |-> IF ts[s].st = "REMAP" THEN ts[s].taddr ELSE ts[s].tgt, src |-> ""])
                            ELSE mm, S \ {s})
 Snapshot ==
   /\ phase = "pre"
@@ -343,7 +347,7 @@ TorNext ==
   \/ \E c \in CircIds : Built(c) \/ CircGone(c)
   \/ \E s \in StreamIds, st \in {"NEW", "NEWRESOLVE"}, t \in Targets, a \in Srcs : StreamNew(s, st, t, a)
   \/ \E s \in StreamIds, c \in CircIds : SentConnect(s, c)
-  \/ \E s \in StreamIds : Remap(s) \/ Succeeded(s) \/ Detached(s)
+  \/ \E s \in StreamIds : (\E a \in RemapAddrs : Remap(s, a)) \/ Succeeded(s) \/ Detached(s)
   \/ \E s \in StreamIds, how \in {"CLOSED", "FAILED"} : StreamGone(s, how)
 
 UserNext ==
@@ -377,6 +381,9 @@ StreamDetails ==
   Live => \A s \in StreamIds : LiveS(s) =>
      /\ m.s[s].tgt \in {"", ts[s].tgt}
      /\ m.s[s].src \in {"", ts[s].src}
+     \* the remapped address is the latest one Tor reported (unknown only if we attached after it)
+     /\ m.s[s].taddr \in {"", ts[s].taddr}
+     /\ ts[s].st = "REMAP" => m.s[s].taddr = ts[s].taddr
 AttachBothWays ==
   Live => /\ \A s \in StreamIds : (m.s[s].live /\ m.s[s].circ # 0) => Count(m.c[m.s[s].circ].streams, s) = 1
           /\ \A c \in CircIds : \A s \in SeqToSet(m.c[c].streams) : m.s[s].live /\ m.s[s].circ = c
